@@ -162,10 +162,12 @@ def model_facets(run):
     detail = []
     for lab, mut in (("unequal snapshot counts (more fractions)", lambda m: m.fractions.append(m.fractions[0])), ("unequal snapshot counts (more orientations)", lambda m: m.orientations.append(m.orientations[0])),
                      ("fractions size != n_grains", lambda m: m.fractions.__setitem__(0, np.ones(5))), ("orientations size != n_grains", lambda m: m.orientations.__setitem__(0, np.ones((5, 3, 3)))),
-                     ("n_grains stale", lambda m: setattr(m, "n_grains", 7))):
+                     ("n_grains stale", lambda m: setattr(m, "n_grains", 7)),
+                     ("a later fractions snapshot of another size", lambda m: m.fractions.__setitem__(len(m.fractions) - 1, np.ones(5))),
+                     ("a later orientations snapshot of another size", lambda m: m.orientations.__setitem__(len(m.orientations) - 1, np.ones((5, 3, 3))))):
         for pf in (None, "p"):
             arch.files.clear(); arch.log.clear()
-            m = mk(0, 0, 4, 3, 2)
+            m = mk(0, 0, 4, 3, 3)
             mut(m)
             try:
                 save(m, "h.npz", pf)
@@ -175,7 +177,7 @@ def model_facets(run):
                     ok_err = False; detail.append(f"{lab}: raised after {arch.log[0][0]}")
             except Exception as e:
                 ok_err = False; detail.append(f"{lab}: {type(e).__name__}")
-    run.exact("corrupt state is rejected with ValueError before any archive or directory access", FN + ".save", ok_err, "; ".join(detail) or "5 corruption classes x 2 postfix forms")
+    run.exact("corrupt state is rejected with ValueError before any archive or directory access", FN + ".save", ok_err, "; ".join(detail) or "7 corruption classes x 2 postfix forms")
     ok_ext = True
     for name in ("a.txt", "a.npy", "anpz", "a.npz.bak"):
         for f_, args in ((load, (M.Mineral.__new__(M.Mineral), name)), (from_file_f, (M.Mineral, name))):
@@ -256,11 +258,14 @@ def nat_files(seed, count):
                     msgs.append(f"load(postfix={postfixes[j]!r}) does not restore mineral {j} of {k} (n_grains {b.n_grains})")
             # corrupt state: rejected without writing
             bad = pydrex.Mineral(n_grains=4, seed=2)
-            which = it % 3
+            which = it % 4
             if which == 0:
                 bad.fractions.append(bad.fractions[0])
             elif which == 1:
                 bad.orientations.append(bad.orientations[0])
+            elif which == 3:
+                bad.fractions.append(bad.fractions[0].copy()); bad.orientations.append(bad.orientations[0].copy())
+                bad.fractions.append(np.ones(7) / 7); bad.orientations.append(bad.orientations[0].copy())  # a LATER snapshot of another size
             else:
                 bad.n_grains = 9
             p2 = os.path.join(tmp, f"bad{it}", "x.npz")
@@ -270,6 +275,30 @@ def nat_files(seed, count):
             except ValueError:
                 if os.path.exists(p2) or os.path.exists(os.path.dirname(p2)):
                     msgs.append("corrupt state raised ValueError but wrote to disk first")
+            # a failed save must leave an existing archive exactly as it was
+            good = pydrex.Mineral(n_grains=4, seed=3)
+            p3 = os.path.join(tmp, f"keep{it}.npz")
+            good.save(p3) if it % 2 else good.save(p3, "g")
+            before = open(p3, "rb").read()
+            try:
+                bad.save(p3, [None, "q"][it % 2])
+                msgs.append(f"corrupt state (class {which}) was saved into an existing archive")
+            except ValueError:
+                if open(p3, "rb").read() != before:
+                    msgs.append("a failed save (corrupt state) modified the existing archive")
+            os.unlink(p3)
+            # mixed archive: one mineral saved without a postfix and another under a postfix in the same file
+            if k >= 2 and it % 3 == 2:
+                p4 = os.path.join(tmp, f"mix{it}.npz")
+                ms[0].save(p4)
+                ms[1].save(p4, "other")
+                for lab, want, pf_ in (("un-postfixed", ms[0], None), ("postfixed", ms[1], "other")):
+                    a = pydrex.Mineral.from_file(p4, pf_) if pf_ is not None else pydrex.Mineral.from_file(p4)
+                    b = pydrex.Mineral(n_grains=5, seed=1)
+                    b.load(p4, pf_) if pf_ is not None else b.load(p4)
+                    if not (eq(a, want) and eq(b, want)):
+                        msgs.append(f"mixed archive: the {lab} mineral is not restored intact")
+                os.unlink(p4)
             for nm in ("x.txt", "x.npy"):
                 try:
                     pydrex.Mineral.from_file(os.path.join(tmp, nm))
